@@ -1,11 +1,11 @@
 """C01 - query results equal exactly the stored points that satisfy the query."""
 from .common import *
 ID = "C01"
-FUNCTIONS = UTILS + INDEX_SEARCH + ["tinyflux.database._index_is_exact_for"] + [TF + f for f in ("reindex", "count", "contains", "get", "search", "all")] + ["lemma:count"]
+FUNCTIONS = UTILS + INDEX_SEARCH + ["tinyflux.database._index_is_exact_for"] + [TF + f for f in ("reindex", "count", "contains", "get", "search", "select", "all")] + ["lemma:count"]
 ASSUMED = ["bisect.bisect_left", "bisect.bisect_right"] + ["tinyflux.storages.Storage." + f for f in ("can_read", "__len__", "_deserialize_storage_item", "_deserialize_measurement", "read")]
 STANDIN = "standins/dbdiff.py"
 TRUSTED = TRUSTED_CORE + [STORAGE_ASSUMED, QUERY_ASSUMED, TIME_ASSUMED, "assumed contract of bisect_left/right (C18)",
-                          "NOT under contract (bounded stand-in only): TinyFlux.select; not proved: termination of the recursion in _search_helper (the Measurement forwarders are proved under C10)"]
+                          "TinyFlux.select: the `select_keys` argument is a str or an iterable whose list() is a list of str (a non-str element would raise AttributeError: outside the contract); key syntax is read through three uninterpreted observers of abstract strings (startswith, len, s[k:]) shared by code and contract - no string theory; returned values are compared as Cell values (None | datetime | str | number)", "not proved: termination of the recursion in _search_helper (the Measurement forwarders are proved under C10)"]
 ASSUMPTIONS = [A_ALIAS, "A-gen: generator arguments are consumed without observable interleaving",
                "measurement filter '' behaves like None in the code; contracts follow the code there (recorded under C10 as KF-19)"]
 FUNCTIONS = FUNCTIONS + MEM_REFINEMENT  # MemoryStorage refines the abstract Storage contract
